@@ -18,10 +18,17 @@ Print Assumptions C02_constant.
 Theorem C02_array : forall (V : Type) (vzero : V) (m : mesh) (nv : nat) (sh : list Z) (data : list V) a,
   ((nv =? 1)%nat && zlist_eqb sh (n m) = false) ->
   as_array_arr vzero m nv sh data = OK a ->
-  last_z sh = Z.of_nat nv /\ bcast_ok sh (shape_of m nv) = true /\
-  forall i, a i = map (fun k => nda_at vzero sh data (bcast_idx sh (i ++ [k]))) (ziota 0 nv).
+  last_z sh = Z.of_nat nv /\ bcast_ok (eff_shape m nv sh) (shape_of m nv) = true /\
+  forall i, a i = map (fun k => nda_at vzero (eff_shape m nv sh) data
+                                  (bcast_idx (eff_shape m nv sh) (i ++ [k]))) (ziota 0 nv).
 Proof. exact arr_accepted. Qed.
 Print Assumptions C02_array.
+
+(* [eff_shape]: numpy drops excess leading axes of length 1; without excess axes it is the shape itself *)
+Theorem C02_array_eff_shape : forall (m : mesh) (nv : nat) (sh : list Z),
+  (length sh <= length (shape_of m nv))%nat -> eff_shape m nv sh = sh.
+Proof. exact eff_shape_same. Qed.
+Print Assumptions C02_array_eff_shape.
 
 (* for an array of the full shape broadcasting is the identity: entry [i ++ [k]] of the array *)
 Theorem C02_array_full_index : forall (sh i : list Z),
@@ -198,7 +205,7 @@ Proof. exact arr_wrong_length. Qed.
 Print Assumptions C02_reject_wrong_length.
 
 Theorem C02_reject_wrong_shape : forall (V : Type) (vzero : V) (m : mesh) (nv : nat) (sh : list Z) (data : list V),
-  ((nv =? 1)%nat && zlist_eqb sh (n m) = false) -> bcast_ok sh (shape_of m nv) = false ->
+  ((nv =? 1)%nat && zlist_eqb sh (n m) = false) -> bcast_ok (eff_shape m nv sh) (shape_of m nv) = false ->
   is_ok (as_array_arr vzero m nv sh data) = false.
 Proof. exact arr_wrong_shape. Qed.
 Print Assumptions C02_reject_wrong_shape.
